@@ -135,27 +135,25 @@ def check_case(rep, case, closed, stats, max_perms):
                 if not np.allclose(np.asarray(G), Gexp, rtol=1e-6, atol=1e-8):
                     rep.violation(f"{cdesc}: gradient of {name} is not permuted with samples->{sg} clusters->{tau}",
                                   {"case": _c(case), "name": name, "sigma": sg, "tau": tau}, tags=(name, "perm-grad"))
-    # 4. adding an empty cluster changes nothing and gets zero gradient - wherever the empty cluster is inserted
-    for pos in (k, 0):
-        Pe = np.insert(P, pos, 0.0, axis=1)
-        for name in names13():
-            if name in ("kl_ovo", "chi2_ovo") :
-                # comparing a cluster with an empty one: these divergences are infinite for disjoint supports; the code's
-                # clipping at 1e-12 makes them finite but the limit statement is only meaningful for the other GEMINIs
-                continue
-            A = default_aff(name, x)
-            g = _inst(name)
-            v, G = g(Pe.copy(), None if A is None else A.copy(), return_grad=True)
-            G = np.asarray(G)
-            rep.case((n, k, q, case["a"], x, name, "empty", pos))
-            tolv = 2e-5 if name.startswith("hellinger") else 2e-6 if name.startswith("mmd") else 1e-8
-            where = "appended" if pos == k else "inserted as the first cluster"
-            if not abs(float(v) - vals[name]) <= tolv * max(1, abs(vals[name])):
-                rep.violation(f"{cdesc}: {name} changes from {vals[name]!r} to {float(v)!r} when an empty cluster is {where}",
-                              {"case": _c(case), "name": name, "pos": pos}, tags=(name, "empty"))
-            if not np.all(G[:, pos] == 0):
-                rep.violation(f"{cdesc}: {name}: the empty cluster ({where}) receives gradient {G[:, pos].tolist()}",
-                              {"case": _c(case), "name": name, "pos": pos}, tags=(name, "empty-grad"))
+    # 4. adding an empty cluster changes nothing and gets zero gradient
+    Pe = np.concatenate([P, np.zeros((n, 1))], axis=1)
+    for name in names13():
+        if name in ("kl_ovo", "chi2_ovo") :
+            # comparing a cluster with an empty one: these divergences are infinite for disjoint supports; the code's
+            # clipping at 1e-12 makes them finite but the limit statement is only meaningful for the other GEMINIs
+            continue
+        A = default_aff(name, x)
+        g = _inst(name)
+        v, G = g(Pe.copy(), None if A is None else A.copy(), return_grad=True)
+        G = np.asarray(G)
+        rep.case((n, k, q, case["a"], x, name, "empty"))
+        tolv = 2e-5 if name.startswith("hellinger") else 2e-6 if name.startswith("mmd") else 1e-8
+        if not abs(float(v) - vals[name]) <= tolv * max(1, abs(vals[name])):
+            rep.violation(f"{cdesc}: {name} changes from {vals[name]!r} to {float(v)!r} when an empty cluster is added",
+                          {"case": _c(case), "name": name}, tags=(name, "empty"))
+        if not np.all(G[:, -1] == 0):
+            rep.violation(f"{cdesc}: {name}: the empty cluster receives gradient {G[:, -1].tolist()}",
+                          {"case": _c(case), "name": name}, tags=(name, "empty-grad"))
     # the gradient returned for P is a value: later evaluations of the same objective object (other permutations, one more
     # cluster) must not have rewritten it, or the comparisons above would compare an array with itself
     for name, (Gret, Gcopy) in snaps.items():
